@@ -240,8 +240,11 @@ Local Open Scope string_scope.
 func genC20(seed uint64, tier string, outdir string) *Report {
 	rep := NewReport("C20", seed, tier)
 	rep.Rule = "fee part: a case is one (node vector, chain vector) configuration with its list of (mode, gas, fee) queries; " +
-		"distinct by hash of the canonical text; non-trivial = at least one query admitted and one rejected in check mode"
+		"distinct by hash of the canonical text; non-trivial = at least one query admitted and one rejected in check mode; " +
+		"lane parts: a case is one transaction (message list / whitelist+payer+granter), every distinct one counts; " +
+		"redundancy part: a case is one message list run in 6 mode combinations, non-trivial = passes in one mode and is rejected in another"
 	genC20Fee(rep, seed, tier, outdir)
+	genC20Lanes(rep, seed, tier, outdir)
 	return rep
 }
 
